@@ -382,6 +382,11 @@ func (hp *HTTPProxy) pacProxy(r *http.Request) (*url.URL, error) {
 	if err != nil {
 		return nil, err
 	}
+	// SOCKS (v4) proxies are not supported. http.Transport would treat the
+	// unknown "socks"/"socks4" scheme as a plain HTTP proxy for http:// requests.
+	if p.Mode == pac.SOCKS || p.Mode == pac.SOCKS4 {
+		return nil, fmt.Errorf("PAC: unsupported proxy type %s", p.Mode)
+	}
 
 	proxyURL := p.URL()
 
